@@ -217,7 +217,7 @@ func TestPairs(t *testing.T) {
 
 func TestRandomHistories(t *testing.T) {
 	cat := hx.Catalogue()
-	ev.Check(t, "TestRandomHistories", ev.PickN(1200, 160000), func(t *rapid.T) {
+	ev.Check(t, "TestRandomHistories", ev.PickN(1200, 600000), func(t *rapid.T) {
 		inSession := rapid.Bool().Draw(t, "inSession")
 		n := rapid.IntRange(2, 6).Draw(t, "calls")
 		steps := make([]step, n)
